@@ -269,6 +269,47 @@ def c03_6(ctx):
               'output_file <- --output-file', unparse(b.get('output_file')))
     ctx.check(unparse(b.get('generate_binary')) == 'binary', 'cli:binary-flag', comp.site(calls_[0]),
               'generate_binary <- --binary/--no-binary', unparse(b.get('generate_binary')))
+    # 0 is a value of each of the three numeric options (window [0, 0], fill 0x00): none of them is ever tested by truthiness
+    opts = {'binary_min_address', 'binary_max_address', 'binary_fill'}
+
+    def names_in(e):
+        if isinstance(e, ast.JoinedStr):
+            return set()
+        out = {e.id} if isinstance(e, ast.Name) else set()
+        for c in ast.iter_child_nodes(e):
+            out |= names_in(c)
+        return out
+    tainted = set(opts)      # names that hold (a conversion of) an option value
+    for _ in range(4):
+        for n in ast.walk(comp.node):
+            if isinstance(n, ast.Assign) and len(n.targets) == 1 and isinstance(n.targets[0], ast.Name) and not isinstance(n.value, (ast.Compare, ast.Constant)) \
+                    and names_in(n.value) & tainted:
+                tainted.add(n.targets[0].id)
+
+    def carries_option(e):
+        e = strip_int(e)
+        if isinstance(e, ast.Name):
+            return e.id in tainted
+        if isinstance(e, ast.Call):
+            return any(carries_option(a) for a in list(e.args) + [k.value for k in e.keywords]) or \
+                (isinstance(e.func, ast.Attribute) and carries_option(e.func.value))
+        return False
+    n_truthy = 0
+    for n in ast.walk(comp.node):
+        tested = []
+        if isinstance(n, ast.BoolOp):
+            tested = n.values[:-1] if isinstance(n.op, ast.Or) else n.values
+        elif isinstance(n, (ast.If, ast.While, ast.IfExp)):
+            tested = [n.test]
+        elif isinstance(n, ast.UnaryOp) and isinstance(n.op, ast.Not):
+            tested = [n.operand]
+        for t in tested:
+            if carries_option(t):
+                n_truthy += 1
+                ctx.refute(f'cli:zero-is-a-value:{unparse(t)[:40]}', comp.site(n), 'address 0 and fill 0 are values: a numeric option is compared (with None, with 0), never tested by truthiness',
+                           unparse(n)[:120])
+    if not n_truthy:
+        ctx.ok('cli:zero-is-a-value', comp.site(), 'address 0 and fill 0 are values: a numeric option is compared (with None, with 0), never tested by truthiness')
     # option declarations: long name <-> short letter
     decl = {}
     for d in comp.node.decorator_list:
